@@ -17,7 +17,8 @@ PROPERTY = dict(
                 "constraints in 9 symbols); exact rotations are accepted; zero vectors and wrong shapes (concrete shape "
                 "lattice, symbolic contents) raise ValueError/TypeError.",
     bounds="N = 2 rows; shape lattice ndim 0..3, last dimension 2..5",
-    outside=["NaN inputs and norms 1e+-100 (no NaN / overflow in the exact-real model)", "matrices within 1e-12 of, but not "
+    outside=["symbolic NaN inputs and norms 1e+-100 (no NaN / overflow in the exact-real model; a few concrete NaN / inf inputs are "
+             "run through the constructors in reject.shapes)", "matrices within 1e-12 of, but not "
              "exactly on, SO(3) (accepted-side perturbation bound not decided)"],
 )
 FQ = 'ahrs.common.quaternion:'
@@ -156,6 +157,15 @@ def reject_shapes(h):
     for z in (np.zeros(4), np.zeros(3)):
         raised, _ = h.raises(lambda: Quaternion(z.copy()), (ValueError, TypeError))
         h.check(f'Quaternion(zeros({len(z)})) rejected', h.true() if raised else h.false())
+    for bad in (np.array([np.nan, 0.0, 0.0, 1.0]), np.array([0.0, np.nan, 1.0]), np.array([np.inf, 0.0, 0.0, 1.0])):
+        raised, _ = h.raises(lambda: Quaternion(bad.copy()), (ValueError, TypeError))
+        h.check(f'Quaternion({list(bad)}) rejected', h.true() if raised else h.false())
+    raised, _ = h.raises(lambda: QuaternionArray(np.array([[np.nan, 0.0, 0.0, 1.0], [1.0, 0.0, 0.0, 0.0]])), (ValueError, TypeError))
+    h.check('QuaternionArray with a NaN row rejected', h.true() if raised else h.false())
+    Mn = np.identity(3)
+    Mn[0, 1] = np.nan
+    raised, _ = h.raises(lambda: DCM(Mn.copy()), (ValueError, TypeError))
+    h.check('DCM with a NaN entry rejected', h.true() if raised else h.false())
     raised, _ = h.raises(lambda: QuaternionArray(h.arr([x, x, x, x])), (ValueError, TypeError))
     h.check('QuaternionArray(shape (4,)) rejected', h.true() if raised else h.false())
     raised, _ = h.raises(lambda: QuaternionArray(np.zeros((2, 4))), (ValueError, TypeError))
